@@ -80,6 +80,22 @@ class Spec:
         ops.append(Op("move", "B2", self._move(B2, False)))
         ops.append(Op("move_stationary", "B1", self._move(B1, True)))
 
+        def move_then_edit(st):
+            # the pose object handed to move() stays the caller's: the caller shifts it in place afterwards (next waypoint),
+            # the arm stays where it was moved to
+            a, m = st.arm, st.ref
+            b = self.tm(B2.copy())
+            with armlib.scripted_random(FR), armlib.quiet():
+                a.move(b)
+            b[0] = float(b[0]) + 0.5
+            b[5] = float(b[5]) - 0.3
+            m.base = B2.copy()
+            m.th = m.clamp(m.th)
+            st.loose = False
+            st.unclamped = False
+            return st, {}
+        ops.append(Op("move_then_caller_edits_its_pose_object", "B2", move_then_edit))
+
         def live_queries(st):
             # the pure queries asked on the LIVE object (the invariant asks them on private copies): whatever they remember is
             # part of the state from here on.  Only with the stored joints inside the limits: the queries clamp the stored vector in
